@@ -36,12 +36,19 @@ type Contract struct {
 	Ensures  []*Clause
 	Panics   []*Clause // may-panic conditions (over the pre-state)
 	Modifies []ModTarget
+	GhostSets []GhostSet
 	ModAny   bool // "modifies *": callers havoc everything (only for externs that run user code)
 	MayPanic bool // `panics *`: may panic under any circumstances
 	Pure     bool
 	Expect   int // minimum number of obligations
 	File     string
 	Line     int
+}
+
+type GhostSet struct {
+	Target Expr
+	Value  Expr
+	Src    string
 }
 
 type LoopContract struct {
@@ -109,7 +116,7 @@ var (
 )
 
 var blockKeywords = map[string]bool{"func": true, "extern": true, "functype": true, "trusted": true, "loop": true, "ghost": true, "spec": true, "impl": true}
-var clauseKeywords = map[string]bool{"requires": true, "ensures": true, "panics": true, "modifies": true, "invariant": true, "decreases": true, "expect": true, "vars": true, "pure": true}
+var clauseKeywords = map[string]bool{"requires": true, "ensures": true, "panics": true, "modifies": true, "invariant": true, "decreases": true, "expect": true, "vars": true, "pure": true, "ghostset": true}
 
 func splitList(s string) []string {
 	var out []string
@@ -384,6 +391,23 @@ func (ct *ContractTable) parseLines(lines []rawLine, pkg string) error {
 			default:
 				return errf("modifies outside a contract")
 			}
+		case "ghostset":
+			if curC == nil {
+				return errf("ghostset outside function contract")
+			}
+			i := strings.Index(rest, " = ")
+			if i < 0 {
+				return errf("ghostset target = value")
+			}
+			te, err := parseSpecExpr(rest[:i])
+			if err != nil {
+				return errf("%v", err)
+			}
+			ve, err := parseSpecExpr(rest[i+3:])
+			if err != nil {
+				return errf("%v", err)
+			}
+			curC.GhostSets = append(curC.GhostSets, GhostSet{te, ve, rest})
 		case "expect":
 			if curC == nil {
 				return errf("expect outside function contract")
